@@ -75,6 +75,12 @@ CLAIMS["C12"] = dict(
     note="Proved: class member order, name-lattice order independence. Explored, not proved: determinism of unification and of context building. The wording of diagnostics is outside the property (only the verdict is compared on rejection).",
     technique="Lean 4 proof (permutation invariance via injective sort key, regenerated constants) + correspondence + repetition oracle",
     design="§5 C12")
+CLAIMS["C17"] = dict(
+    text="Lean theorems over the REGENERATED table of the names under which operator definitions are emitted (derived from the parser's operator arms, NodeOp's Display, the string constants of function/python.rs and CoreFunOp): every definable operator is emitted as the special method the Python data model prescribes, distinct operators never share a method, and the language's arithmetic and comparison operators are all definable. "
+         "Names, parameter names/order/defaults/variadic markers, constructors (__init__ from class arguments or explicit), base lists and abstract types are decided by a signature oracle comparing python ast signatures of emitted modules with the definitions of generated programs and templates, both annotate settings.",
+    note="Proved (finite regenerated table, decide): operator naming. Oracle only: all other signature clauses (the Convert model is not built).",
+    technique="Lean 4 proof over regenerated operator table + python-ast signature oracle",
+    design="§5 C17")
 NOT_YET = {}
 ALL = ["C%02d" % i for i in range(1, 21)]
 
